@@ -193,7 +193,7 @@ def eval_cases(pid, files, jobs=12, timeout=420):
         if not m:
             return f, None, out[-3000:]
         body = m.group(1).strip()
-        res = {"model": [], "spec": [], "dropped": []}
+        res = {"model": [], "spec": [], "dropped": [], "spec3": []}
         if not body:
             return f, res, ""
         if "(" in body and "," in body:
@@ -203,13 +203,15 @@ def eval_cases(pid, files, jobs=12, timeout=420):
                     res["model"].append(i)
                 if ss == 1:
                     res["spec"].append(i)
+                if ss == 3:
+                    res["spec3"].append(i)
                 if mm == 2 or ss == 2:
                     res["dropped"].append(i)
         else:
             res["model"] = [int(x) for x in re.findall(r"-?\d+", body)]
         return f, res, ""
 
-    tot = {"model": [], "spec": [], "dropped": []}
+    tot = {"model": [], "spec": [], "dropped": [], "spec3": []}
     errs = []
     with ThreadPoolExecutor(max_workers=jobs) as ex:
         for f, r, e in ex.map(one, files):
@@ -285,6 +287,7 @@ def check(pid, tier, seed, spec):
         if run_ is None:
             return None, hlog_, [], [], [], [], False
         mism_, cerrs_, spec_ids_, dropped_ = [], [], [], []
+        tot = {"spec3": []}
         unavailable = False
         if run_.get("case_files"):
             if all(vo_ok(f) for f in spec.get("model_deps", [])):
@@ -300,7 +303,12 @@ def check(pid, tier, seed, spec):
                            "input": run_["cases"].get(str(i)), "observed": "see replay (answers of the implementation)",
                            "expected": "the answers of the reference semantics S (Model/Sld.v)",
                            "detail": "model M %s with the implementation on this case" % ("also disagrees" if i in mism_ else "agrees")})
-        mism_ = [i for i in mism_ if i not in spec_ids_]
+        for i in tot["spec3"] if run_.get("case_files") and not unavailable else []:
+            fails_.append({"id": i, "class": pid + ":stored-split-or-unconverted-clause-term",
+                           "input": run_["cases"].get(str(i)), "observed": "see replay",
+                           "expected": "the answers of the reference semantics S",
+                           "detail": "differs from S, agrees with S under the implementation's storage convention (F3a)"})
+        mism_ = [i for i in mism_ if i not in spec_ids_ and i not in tot.get("spec3", [])] if run_.get("case_files") and not unavailable else mism_
         return run_, hlog_, mism_, cerrs_, fails_, dropped_, unavailable
 
     run, hlog, mism, cerrs, fails, dropped, corr_unavailable = explore(tier, seed)
